@@ -65,6 +65,9 @@ var c10Ops = map[string]string{
 	// equality of integers as the other builtins see it
 	"eqs":     "[($a | contains($b)), ($a | inside($b)), ([$a] | contains([$b])), ({k: $a} | contains({k: $b})), ([$a] | index($b) == 0), ([$a, $b] | unique | length == 1), ([$a] | inside([$b])), ([$a, $b] | group_by(.) | length == 1), ([$a] - [$b] == []), ($a | IN($b, null)), ([$b] | bsearch($a) >= 0), ([$a, $b] | (min == max))]",
 	"neg-lit": "$a | -(.)", "sub0": "0 - $a", "toarr": "[$a, $b] | (.[0] + .[1])",
+	// sums as the summing builtins compute them (their own loops, not the operator)
+	"sums": "[([$a, $b] | add), ([$b, $a] | add), ([null, $a, $b] | add), add($a, $b), ([$a, $b] | add(.[])), (reduce ($a, $b) as $x (0; . + $x)), ([[$a], [$b]] | add | add), ({x: $a, y: $b} | add), ([$a, $b, 0] | add), ([0, $a, $b] | add)]",
+	"sum3": "[([$a, $b, $a] | add), ([$a, $a, $b] | add), (reduce ($a, $b, $a) as $x (null; . + $x)), ([$a, $b] | add + $a)]",
 }
 
 var two31 = new(big.Int).Lsh(big.NewInt(1), 31)
@@ -122,6 +125,12 @@ var kC10Arith = run.NewKind("c10.arith", func(c *run.Ctx, t c10Arith) *run.Fail 
 	case "cmp":
 		k := a.Cmp(b)
 		want = fmt.Sprintf("[%v,%v,%v,%v,%v,%v]", k == 0, k != 0, k < 0, k <= 0, k > 0, k >= 0)
+	case "sums":
+		sres := new(big.Int).Add(a, b)
+		want = "[" + strings.TrimSuffix(strings.Repeat(sres.String()+",", 10), ",") + "]"
+	case "sum3":
+		sres := new(big.Int).Add(new(big.Int).Add(a, b), a)
+		want = "[" + strings.TrimSuffix(strings.Repeat(sres.String()+",", 4), ",") + "]"
 	case "eqs":
 		e := a.Cmp(b) == 0
 		want = "[" + strings.TrimSuffix(strings.Repeat(fmt.Sprint(e)+",", 12), ",") + "]"
@@ -572,7 +581,7 @@ func init() {
 			r := c.Rand("c10")
 			B := c10Boundary(r, c.N(150, 300))
 			c.Gauge("boundary_set_size", int64(len(B)))
-			binops := []string{"+", "-", "*", "/", "%", "cmp", "eqs"}
+			binops := []string{"+", "-", "*", "/", "%", "cmp", "eqs", "sums", "sum3"}
 			if c.Quick() {
 				// sampled pairs
 				n := 150000
